@@ -1,9 +1,12 @@
-//! C16 (first sentence): direct palette histories against a vector model.
+//! C16: direct palette histories against a vector model (insert / set / push / resize / lookup).
+//! The second sentence of the property (export -> import gives the same colours, the 6-bit encoding is
+//! idempotent) is a pure function of the palette; it rides along as two more operations of the history
+//! generator (no schedule or fault is involved in them, and DESIGN.md says so).
 
 use crate::guard;
 use crate::rng::Rng;
 use crate::trace::{Ev, Outcome, RunStats, Trace, Violation};
-use icy_engine::{Color, Palette};
+use icy_engine::{Color, Palette, PaletteFormat};
 use std::panic::{catch_unwind, AssertUnwindSafe};
 
 fn inv(name: &str, detail: String, at: usize) -> Violation {
@@ -57,7 +60,12 @@ pub fn run_pal(trace: &Trace) -> Outcome {
                     None
                 }
                 "set" => {
-                    pal.set_color(g(3).clamp(0, 400) as u32, Color::new(rgb.0, rgb.1, rgb.2));
+                    let mut c = Color::new(rgb.0, rgb.1, rgb.2);
+                    if g(4) != 0 {
+                        // a named entry (as palette files and the IcyDraw palette chunk produce them)
+                        c.name = Some(format!("named {}", g(4)));
+                    }
+                    pal.set_color(g(3).clamp(0, 400) as u32, c);
                     None
                 }
                 "push" => {
@@ -68,6 +76,7 @@ pub fn run_pal(trace: &Trace) -> Outcome {
                     pal.resize(g(0).clamp(0, 400) as usize);
                     None
                 }
+                "roundtrip" | "six_bit" => None,
                 _ => None,
             }
         }));
@@ -120,6 +129,129 @@ pub fn run_pal(trace: &Trace) -> Outcome {
                 }
             }
         }
+        // the other operations against the vector model
+        match name.as_str() {
+            "set_rgb" | "set" => {
+                let i = g(3).clamp(0, 400) as usize;
+                let want_len = before.len().max(i + 1);
+                let mut bad = None;
+                if after.len() != want_len {
+                    bad = Some(format!("length {} instead of {want_len}", after.len()));
+                } else if after[i] != rgb {
+                    bad = Some(format!("index {i} resolves to {:?}", after[i]));
+                } else if let Some(j) = (0..before.len()).find(|j| *j != i && after[*j] != before[*j]) {
+                    bad = Some(format!("index {j} changed from {:?} to {:?}", before[j], after[j]));
+                }
+                if let Some(b) = bad {
+                    violation = Some(inv("set_not_stored", format!("setting index {i} of a {}-colour palette to {rgb:?}: {b}", before.len()), ei));
+                    break;
+                }
+                stats.count("sets_checked");
+            }
+            "push" => {
+                if after.len() != before.len() + 1 || after[..before.len()] != before[..] || after[before.len()] != rgb {
+                    violation = Some(inv("push_not_appended", format!("pushing {rgb:?} onto a {}-colour palette gave {} colours, last {:?}", before.len(), after.len(), after.last()), ei));
+                    break;
+                }
+            }
+            "resize" => {
+                let n = g(0).clamp(0, 400) as usize;
+                let keep = n.min(before.len());
+                if after.len() != n || after[..keep] != before[..keep] {
+                    violation = Some(inv("resize_changed_existing", format!("resizing a {}-colour palette to {n} gave {} colours or changed a kept index", before.len(), after.len()), ei));
+                    break;
+                }
+            }
+            "roundtrip" => {
+                let (fmt, fname) = match g(0) {
+                    0 => (PaletteFormat::Hex, "hex"),
+                    1 => (PaletteFormat::Pal, "pal"),
+                    2 => (PaletteFormat::Gpl, "gpl"),
+                    3 => (PaletteFormat::Txt, "txt"),
+                    _ => (PaletteFormat::Ice, "ice"),
+                };
+                let mut p2 = pal.clone();
+                let meta = g(1);
+                // plain wording, or wording that happens to contain runs of hexadecimal digits and numbers
+                let hexy = meta & 16 != 0;
+                p2.title = if meta & 1 == 0 {
+                    String::new()
+                } else if hexy {
+                    "Decade facade 00c0ffee".into()
+                } else {
+                    "My palette".into()
+                };
+                p2.author = if meta & 2 == 0 {
+                    String::new()
+                } else if hexy {
+                    "Abe Defaced 20240131".into()
+                } else {
+                    "Some One".into()
+                };
+                p2.description = if meta & 4 == 0 {
+                    String::new()
+                } else if hexy {
+                    "beef cafe 123456 ABCDEF 12 34 56".into()
+                } else {
+                    "sixteen and more colours".into()
+                };
+                if meta & 8 != 0 && p2.len() > 0 {
+                    // optional colour names on a few entries
+                    for i in [0usize, p2.len() / 2, p2.len() - 1] {
+                        let mut c = p2.get_color(i as u32);
+                        c.name = Some(if hexy { format!("facade 112233 {i}") } else { format!("colour {i}") });
+                        p2.set_color(i as u32, c);
+                    }
+                }
+                let want = list(&p2);
+                if want.len() <= 256 {
+                    let r = catch_unwind(AssertUnwindSafe(|| {
+                        let bytes = p2.export_palette(&fmt);
+                        Palette::load_palette(&fmt, &bytes).map(|p| list(&p)).map_err(|e| e.to_string())
+                    }));
+                    stats.count("roundtrips_checked");
+                    let got = match r {
+                        Ok(x) => x,
+                        Err(_) => {
+                            guard::take_panics();
+                            Err("panic".into())
+                        }
+                    };
+                    if got.as_ref() != Ok(&want) {
+                        let show = match &got {
+                            Ok(v) => format!("{} colours{}", v.len(), v.iter().zip(&want).position(|(a, b)| a != b).map(|k| format!(", first difference at index {k}")).unwrap_or_default()),
+                            Err(e) => format!("error: {e}"),
+                        };
+                        violation = Some(inv(&format!("roundtrip_{fname}"), format!("exporting {} colours (metadata variant {meta}) as {fname} and importing the result gives {show}", want.len()), ei));
+                        break;
+                    }
+                }
+            }
+            "six_bit" => {
+                // all 64^3 six-bit colours: expanding and reducing again is the identity, so expanding twice changes nothing
+                let mut raw = Vec::with_capacity(64 * 64 * 64 * 3);
+                for r in 0..64u8 {
+                    for gg in 0..64u8 {
+                        for b in 0..64u8 {
+                            raw.extend([r, gg, b]);
+                        }
+                    }
+                }
+                let p1 = Palette::from_63(&raw);
+                let back = p1.as_vec_63();
+                stats.count("six_bit_sweeps");
+                if back != raw {
+                    let k = back.iter().zip(&raw).position(|(a, b)| a != b).unwrap_or(0) / 3;
+                    violation = Some(inv("six_bit_not_idempotent", format!("six-bit colour {:?} comes back as {:?}", &raw[k * 3..k * 3 + 3], &back[k * 3..k * 3 + 3]), ei));
+                    break;
+                }
+                if list(&Palette::from_63(&back)) != list(&p1) {
+                    violation = Some(inv("six_bit_not_idempotent", "expanding the reduced colours gives a different palette".into(), ei));
+                    break;
+                }
+            }
+            _ => {}
+        }
         stats.max("palette_len", after.len() as u64);
     }
     stats.sig("history_shape", crate::rng::fnv(&trace.events.iter().map(|e| if let Ev::Op { name, .. } = e { name.chars().next().unwrap_or('?') } else { '?' }).collect::<String>()));
@@ -149,11 +281,14 @@ pub fn gen_pal(rng: &mut Rng) -> Trace {
             recent.push(c);
             c
         };
-        let (name, args): (&str, Vec<i64>) = match rng.below(10) {
+        let (name, args): (&str, Vec<i64>) = match rng.below(12) {
+            10 => ("roundtrip", vec![rng.range(0, 4), rng.range(0, 31)]),
+            11 if rng.chance(1, 40) => ("six_bit", vec![]),
+            11 => ("roundtrip", vec![rng.range(0, 4), *rng.pick(&[0i64, 15, 31])]),
             0..=4 => ("insert_rgb", vec![rgb.0, rgb.1, rgb.2]),
             5 => ("insert", vec![rgb.0, rgb.1, rgb.2]),
             6 => ("set_rgb", vec![rgb.0, rgb.1, rgb.2, *rng.pick(&[0i64, 1, 15, 16, 17, 100, 300])]),
-            7 => ("set", vec![rgb.0, rgb.1, rgb.2, rng.range(0, 40)]),
+            7 => ("set", vec![rgb.0, rgb.1, rgb.2, rng.range(0, 40), if rng.chance(1, 2) { rng.range(1, 9) } else { 0 }]),
             8 => ("push", vec![rgb.0, rgb.1, rgb.2]),
             _ => ("resize", vec![*rng.pick(&[0i64, 1, 8, 16, 17, 64, 300])]),
         };
